@@ -22,6 +22,7 @@
 #include <assert.h>
 #include <ctype.h>
 #include <errno.h>
+#include <limits.h>
 #include <stdbool.h>
 #include <stdio.h>
 #include <stdlib.h>
@@ -339,11 +340,14 @@ static int scan_line(npd_scan_state_t *nssp)
 static bool convert_int(const char *field, int *value)
 {
     char *end;
+    long temp;
 
-    *value = strtol(field, &end, 0);
-    if (end == field) {
+    errno = 0;
+    temp = strtol(field, &end, 0);
+    if (end == field || errno == ERANGE || temp < INT_MIN || temp > INT_MAX) {
 	return false;
     }
+    *value = (int)temp;
     while (isspace(*end))
 	++end;
     return *end == '\000';
@@ -392,6 +396,34 @@ static int expect_nnint_arg(npd_scan_state_t *nssp, int *value)
 	return -1;
     }
     *value = temp;
+    return 0;
+}
+
+/*
+ * NPD_MAX_PORTS: largest port count we load; it keeps the field
+ * arithmetic (2 * ports * ports per parameter block) within an int
+ */
+#define NPD_MAX_PORTS	16383
+
+/*
+ * expect_ports_arg: expect a port (row, column) count
+ *   @nssp:  scanner state
+ *   @value: address to receive result
+ */
+static int expect_ports_arg(npd_scan_state_t *nssp, int *value)
+{
+    vnadata_internal_t *vdip = nssp->nss_vdip;
+
+    if (expect_nnint_arg(nssp, value) == -1) {
+	return -1;
+    }
+    if (*value > NPD_MAX_PORTS) {
+	_vnadata_error(vdip, VNAERR_SYNTAX,
+		"%s (line %d) error: %s may not exceed %d",
+		nssp->nss_filename, nssp->nss_line,
+		FIELD(nssp, 0), NPD_MAX_PORTS);
+	return -1;
+    }
     return 0;
 }
 
@@ -465,7 +497,7 @@ int _vnadata_load_npd(vnadata_internal_t *vdip, FILE *fp, const char *filename)
 			"redundant ports line", nss.nss_filename, nss.nss_line);
 		goto out;
 	    }
-	    if (expect_nnint_arg(&nss, &ports) == -1) {
+	    if (expect_ports_arg(&nss, &ports) == -1) {
 		goto out;
 	    }
 	    if (scan_line(&nss) == -1) {
@@ -474,7 +506,7 @@ int _vnadata_load_npd(vnadata_internal_t *vdip, FILE *fp, const char *filename)
 	    continue;
 
 	case T_KROWS:
-	    if (expect_nnint_arg(&nss, &rows) == -1) {
+	    if (expect_ports_arg(&nss, &rows) == -1) {
 		goto out;
 	    }
 	    if (scan_line(&nss) == -1) {
@@ -483,7 +515,7 @@ int _vnadata_load_npd(vnadata_internal_t *vdip, FILE *fp, const char *filename)
 	    continue;
 
 	case T_KCOLUMNS:
-	    if (expect_nnint_arg(&nss, &columns) == -1) {
+	    if (expect_ports_arg(&nss, &columns) == -1) {
 		goto out;
 	    }
 	    if (scan_line(&nss) == -1) {
@@ -814,6 +846,11 @@ int _vnadata_load_npd(vnadata_internal_t *vdip, FILE *fp, const char *filename)
 	    best_drows = drows;
 	    best_dcolumns = dcolumns;
 	    best_field = n_fields;
+	}
+	if (fields > INT_MAX - n_fields) {
+	    _vnadata_error(vdip, VNAERR_SYNTAX, "%s (line %d) error: "
+		    "too many fields", nss.nss_filename, parameter_line);
+	    goto out;
 	}
 	n_fields += fields;
     }
